@@ -296,6 +296,99 @@ fn run_point_padding(cx: &mut CaseCx, case: &Value) {
   cx.sample(json!({"t": t, "paddings": np}));
 }
 
+
+/// Coefficient census: the clause "non-constant coefficients are non-zero, pairwise distinct" over several
+/// thousand sharings (a coefficient source that degenerates once in a few hundred draws shows here), and
+/// the direct consequence: t-1 shares never interpolate to the sharing key.
+fn run_coefficient_census(cx: &mut CaseCx, case: &Value) {
+  let t = case["t"].as_u64().unwrap() as u32;
+  let lo = case["lo"].as_u64().unwrap();
+  let epoch = b"census".to_vec();
+  let mut seen: HashMap<BigUint, u64> = HashMap::new();
+  for i in lo..lo + 500 {
+    let meas = format!("census-measurement-{}", i).into_bytes();
+    let rnd = local_randomness(&meas, &epoch, t);
+    let n = t as usize + 1;
+    let mut pts: Vec<(BigUint, BigUint)> = vec![];
+    for k in 0..n {
+      getrandom::verif::set_group(k as u32 + 1);
+      if let Ok(m) = gen_report(&meas, &epoch, t, &rnd, &None) {
+        if let Some(p) = rm::parse_adss(&m.share.to_bytes()) {
+          if let Some(y) = p.s.y.first() {
+            pts.push((p.s.x.clone(), y.clone()));
+          }
+        }
+      }
+    }
+    let mut xs: Vec<&BigUint> = pts.iter().map(|p| &p.0).collect();
+    xs.sort();
+    xs.dedup();
+    if pts.len() != n || xs.len() != n {
+      continue;
+    }
+    let coeffs = rm::interpolate_coeffs(&pts[..t as usize]);
+    cx.eval();
+    cx.count("sharings_examined", 1);
+    cx.nontrivial(i ^ ((t as u64) << 32));
+    let d = || json!({"measurement": format!("census-measurement-{}", i), "t": t});
+    if rm::horner(&coeffs, &pts[t as usize].0) != pts[t as usize].1 {
+      cx.viol("C02/poly/not-one-polynomial", "shares of one measurement do not lie on one polynomial of degree <= t-1", d());
+      return;
+    }
+    for (j, c) in coeffs.iter().enumerate().skip(1) {
+      if c.is_zero() {
+        cx.viol(if j == t as usize - 1 { "C02/poly/degree-too-low" } else { "C02/poly/zero-coefficient" }, format!("census-measurement-{} (t={}): coefficient {} of the sharing polynomial is zero{}", i, t, j, if j == t as usize - 1 { " - the polynomial has degree < t-1, so t-1 shares determine the sharing key" } else { "" }), d());
+        return;
+      }
+      if let Some(prev) = seen.insert(c.clone(), i) {
+        cx.viol("C02/poly/coefficient-repeated", format!("a non-constant coefficient of census-measurement-{} also occurs in the polynomial of census-measurement-{}", i, prev), d());
+        return;
+      }
+      cx.count("coefficients_examined", 1);
+    }
+    // consequence, checked directly: t-1 shares do not interpolate to the constant term
+    if t >= 2 && rm::lagrange_at_zero(&pts[..t as usize - 1]) == coeffs[0] {
+      cx.viol("C02/poly/degree-too-low", format!("census-measurement-{}: t-1 = {} shares interpolate to the sharing key", i, t - 1), d());
+      return;
+    }
+  }
+  cx.outcome(format!("t={}", t));
+}
+
+/// adss level: nothing of the message, the coins or the sharing key in the clear in an encoded share, for
+/// every (message length, coins length) pair of a grid - in particular unequal lengths
+fn run_adss_scan(cx: &mut CaseCx, case: &Value) {
+  let ml = case["ml"].as_u64().unwrap() as usize;
+  let lens = [0usize, 8, 16, 24, 31, 32, 33, 48, 64, 100, 166, 200];
+  for &rl in &lens {
+    for t in [1u32, 2, 3] {
+      let m = prbytes(0x5CA0 + ml as u64, ml);
+      let r = prbytes(0x5CA1 + rl as u64 * 7, rl);
+      getrandom::verif::set_group(1);
+      let share = match guard(|| adss::Commune::new(t, m.clone(), r.clone(), None).share().map_err(|e| e.to_string())) {
+        Ok(Ok(s)) => s,
+        _ => continue,
+      };
+      let enc = share.to_bytes();
+      cx.eval();
+      cx.nontrivial(fnv_str(&format!("{}|{}|{}", ml, rl, t)));
+      for (what, secret) in [("message", &m), ("coins", &r)] {
+        if secret.len() < 8 {
+          continue;
+        }
+        for off in 0..=(secret.len() - 8) {
+          if let Some(at) = enc.windows(8).position(|w| w == &secret[off..off + 8]) {
+            cx.viol(format!("C02/secret-in-clear/adss-{}", what), format!("bytes {}..{} of the {} appear in the clear at offset {} of an encoded adss share (|M| = {}, |R| = {}, t = {})", off, off + 8, what, at, ml, rl, t), json!({"message_len": ml, "coins_len": rl, "t": t, "secret": what, "secret_offset": off, "share_offset": at}));
+            return;
+          }
+        }
+      }
+      cx.count("adss_shares_scanned", 1);
+    }
+  }
+  cx.outcome("adss scan");
+}
+
 /// forged threshold field on sub-threshold collections of A's own shares
 fn run_forged(cx: &mut CaseCx, case: &Value) {
   let t = case["t"].as_u64().unwrap() as u32;
@@ -780,6 +873,28 @@ pub fn spec() -> PropSpec {
         gen: |_| [2u64, 3, 4, 5, 9].iter().map(|t| json!({"t": t})).collect(),
         run: run_point_padding,
         min_counts: &[("rejected", 500)],
+      },
+      Check {
+        name: "coefficient-census",
+        rule: "the polynomial clause over 2000 sharings per threshold (t in {2,3,4}; thorough 8000): all coefficients interpolated by the big-integer model from t shares (a further share on the polynomial): every non-constant coefficient non-zero and pairwise distinct across the sharings of a batch of 500, and t-1 shares never interpolate to the constant term",
+        gen: |tier| {
+          let mut v = vec![];
+          for t in [2u64, 3, 4] {
+            for c in 0..(if tier.thorough() { 16u64 } else { 4 }) {
+              v.push(json!({"t": t, "lo": c * 500}));
+            }
+          }
+          v
+        },
+        run: run_coefficient_census,
+        min_counts: &[("sharings_examined", 5000), ("coefficients_examined", 10_000)],
+      },
+      Check {
+        name: "adss-share-scan",
+        rule: "adss level: (|M|, |R|) over {0,8,16,24,31,32,33,48,64,100,166,200}^2 x t in {1,2,3}: every 8-byte window of the message and of the coins against every offset of the encoded share (unequal lengths in particular)",
+        gen: |_| [0u64, 8, 16, 24, 31, 32, 33, 48, 64, 100, 166, 200].iter().map(|l| json!({"ml": l})).collect(),
+        run: run_adss_scan,
+        min_counts: &[("adss_shares_scanned", 400)],
       },
       Check {
         name: "forged-thresholds",
